@@ -1,5 +1,6 @@
 import ErrModel.Proofs.EngineLW
 import ErrModel.Proofs.Prefix
+import ErrModel.Proofs.LexUnlex
 /-
   Transparency of the formatting engine on REGULAR text: what `StripMarkers` gives back, and
   how the write machine treats text whose newlines are interior and isolated.
@@ -660,11 +661,30 @@ theorem write_fresh (t : Toks) (hr : Reg (stripT t)) :
   simp only [hn, if_false, List.append_nil] at this
   simpa using this
 
-/-- the entry collected (plain mode) from a state holding only a buffer -/
-theorem collect_plain_head (s : LState) (b wd : Bool) (d : Nat) (t : Str) (hw : s.wantDetail = false) (hh : s.headBuf = []) :
-    stripT (collect s b false wd d t).head = stripT s.buf ∧ (collect s b false wd d t).elideShort = false := by
+/-- escaping an ASCII text only encloses it: stripped, it is the text again -/
+theorem stripT_escapeBytesT_ascii (x : Str) (h : Ascii x) : stripT (escapeBytesT x) = x := by
+  unfold escapeBytesT
+  have hl : lastRuneInvalid (mOpen ++ x) = false := by
+    rcases List.eq_nil_or_concat x with h0 | ⟨p, c, rfl⟩
+    · subst h0; simpa using lastRuneInvalid_mOpen []
+    · rw [List.concat_eq_append, ← List.append_assoc]; exact lastRuneInvalid_ascii_end _ c (h c (by simp))
+  simp only [hl, Bool.false_eq_true, if_false]
+  rw [stripT_append, stripT_escLoopT, escapeMarkers_ascii x h]
+  simp [stripT, stripToks]
+
+/-- escaping an entry head on its way into a redactable rendering does not change its text -/
+theorem stripT_escIfNeeded (red : Bool) (en : Entry) (h : Ascii (stripT en.head)) :
+    stripT (escIfNeeded red en en.head) = stripT en.head := by
+  unfold escIfNeeded
+  split
+  · rfl
+  · exact stripT_escapeBytesT_ascii _ h
+
+/-- the entry collected from a state holding only a buffer -/
+theorem collect_plain_head (s : LState) (b red wd : Bool) (d : Nat) (t : Str) (hw : s.wantDetail = false) (hh : s.headBuf = []) :
+    stripT (collect s b red wd d t).head = stripT s.buf ∧ (collect s b red wd d t).elideShort = false := by
   unfold collect
-  cases b <;> simp [hw, hh, stripT_bytesT]
+  cases b <;> cases red <;> simp [hw, hh, stripT_bytesT]
 
 end ErrModel
 
@@ -682,70 +702,78 @@ def txtOf : List Entry → Str
     if en.elideShort = true ∨ en.head = [] then txtOf r
     else stripT en.head ++ (if txtOf r = [] then [] else colonSp ++ txtOf r)
 
-def slStep (acc : Toks) (en : Entry) : Toks :=
+def slStep (red : Bool) (acc : Toks) (en : Entry) : Toks :=
   if en.elideShort then acc
   else
     let acc1 := if acc ≠ [] && en.head ≠ [] then acc ++ colonSpT else acc
-    if en.head = [] then acc1 else acc1 ++ escIfNeeded false en en.head
+    if en.head = [] then acc1 else acc1 ++ escIfNeeded red en en.head
 
-theorem singleLine_eq_foldl (l : List Entry) : singleLine false l = l.reverse.foldl slStep [] := rfl
+theorem singleLine_eq_foldl (red : Bool) (l : List Entry) : singleLine red l = l.reverse.foldl (slStep red) [] := rfl
 
 theorem stripT_colonSpT : stripT colonSpT = colonSp := stripT_bytesT colonSp
 
-theorem foldl_slStep (m : List Entry) (hm : ∀ en ∈ m, en.elideShort = false → GoodHead en) (acc : Toks) (hacc : acc = [] ∨ stripT acc ≠ []) :
-    stripT (m.foldl slStep acc) =
+theorem foldl_slStep (red : Bool) (m : List Entry) (hm : ∀ en ∈ m, en.elideShort = false → GoodHead en)
+    (hasc : ∀ en ∈ m, en.elideShort = false → Ascii (stripT en.head)) (acc : Toks) (hacc : acc = [] ∨ stripT acc ≠ []) :
+    stripT (m.foldl (slStep red) acc) =
       (if acc = [] then txtOf m else if txtOf m = [] then stripT acc else stripT acc ++ colonSp ++ txtOf m) ∧
-    (m.foldl slStep acc = [] ∨ stripT (m.foldl slStep acc) ≠ []) := by
+    (m.foldl (slStep red) acc = [] ∨ stripT (m.foldl (slStep red) acc) ≠ []) := by
   induction m generalizing acc with
   | nil =>
     refine ⟨?_, hacc⟩
     by_cases ha : acc = [] <;> simp [txtOf, ha]
   | cons en r ih =>
     have hr : ∀ e ∈ r, e.elideShort = false → GoodHead e := fun e he => hm e (by simp [he])
+    have hra : ∀ e ∈ r, e.elideShort = false → Ascii (stripT e.head) := fun e he => hasc e (by simp [he])
     simp only [List.foldl_cons]
     by_cases hel : en.elideShort = true
-    · have h1 : slStep acc en = acc := by simp [slStep, hel]
+    · have h1 : slStep red acc en = acc := by simp [slStep, hel]
       rw [h1]
-      obtain ⟨i1, i2⟩ := ih hr acc hacc
+      obtain ⟨i1, i2⟩ := ih hr hra acc hacc
       refine ⟨?_, i2⟩
       rw [i1]; simp [txtOf, hel]
     · have hel' : en.elideShort = false := by simpa using hel
       have hen := hm en (by simp) hel'
       by_cases hh : en.head = []
-      · have h1 : slStep acc en = acc := by simp [slStep, hel', hh]
+      · have h1 : slStep red acc en = acc := by simp [slStep, hel', hh]
         rw [h1]
-        obtain ⟨i1, i2⟩ := ih hr acc hacc
+        obtain ⟨i1, i2⟩ := ih hr hra acc hacc
         refine ⟨?_, i2⟩
         rw [i1]; simp [txtOf, hh]
       · have hs : stripT en.head ≠ [] := by rcases hen with h | h; exact absurd h hh; exact h
+        have hX : stripT (escIfNeeded red en en.head) = stripT en.head := stripT_escIfNeeded red en (hasc en (by simp) hel')
+        have hstep : slStep red acc en = (if acc = [] then acc else acc ++ colonSpT) ++ escIfNeeded red en en.head := by
+          by_cases ha : acc = [] <;> simp [slStep, hel', hh, ha]
+        rw [hstep]
+        generalize escIfNeeded red en en.head = X at hX
+        have hXs : stripT X ≠ [] := by rw [hX]; exact hs
+        have hXne : X ≠ [] := by intro h0; subst h0; exact hXs rfl
         by_cases ha : acc = []
         · subst ha
-          have h1 : slStep [] en = en.head := by simp [slStep, hel', hh, escIfNeeded]
-          rw [h1]
-          obtain ⟨i1, i2⟩ := ih hr en.head (Or.inr hs)
+          simp only [if_true, List.nil_append]
+          obtain ⟨i1, i2⟩ := ih hr hra X (Or.inr hXs)
           refine ⟨?_, i2⟩
           rw [i1]
-          simp only [hh, if_false, if_true, txtOf, hel', Bool.false_eq_true, false_or]
+          simp only [hXne, if_false, if_true, txtOf, hel', hh, Bool.false_eq_true, false_or, hX]
           split <;> simp [List.append_assoc]
         · have hsa : stripT acc ≠ [] := by rcases hacc with h | h; exact absurd h ha; exact h
-          have h1 : slStep acc en = acc ++ colonSpT ++ en.head := by simp [slStep, hel', hh, ha, escIfNeeded]
-          rw [h1]
-          have hne : acc ++ colonSpT ++ en.head ≠ [] := by simp [ha]
-          have hsn : stripT (acc ++ colonSpT ++ en.head) ≠ [] := by
+          simp only [ha, if_false]
+          have hne : acc ++ colonSpT ++ X ≠ [] := by simp [ha]
+          have hsn : stripT (acc ++ colonSpT ++ X) ≠ [] := by
             rw [stripT_append, stripT_append]; simp [hsa]
-          obtain ⟨i1, i2⟩ := ih hr _ (Or.inr hsn)
+          obtain ⟨i1, i2⟩ := ih hr hra _ (Or.inr hsn)
           refine ⟨?_, i2⟩
           rw [i1]
-          simp only [hne, if_false, ha, txtOf, hel', hh, Bool.false_eq_true, false_or, stripT_append, stripT_colonSpT]
+          simp only [hne, if_false, txtOf, hel', hh, Bool.false_eq_true, false_or, stripT_append, stripT_colonSpT, hX]
           have htx : stripT en.head ++ (if txtOf r = [] then [] else colonSp ++ txtOf r) ≠ [] := by simp [hs]
           simp only [htx, if_false]
           split <;> simp [List.append_assoc]
 
-/-- the stripped one-line rendering (plain mode) of a list of entries -/
-theorem stripT_singleLine (l : List Entry) (hl : ∀ en ∈ l, en.elideShort = false → GoodHead en) :
-    stripT (singleLine false l) = txtOf l.reverse := by
+/-- the stripped one-line rendering of a list of entries -/
+theorem stripT_singleLine (red : Bool) (l : List Entry) (hl : ∀ en ∈ l, en.elideShort = false → GoodHead en)
+    (hasc : ∀ en ∈ l, en.elideShort = false → Ascii (stripT en.head)) :
+    stripT (singleLine red l) = txtOf l.reverse := by
   rw [singleLine_eq_foldl]
-  have := (foldl_slStep l.reverse (fun en hen => hl en (by simpa using hen)) [] (Or.inl rfl)).1
+  have := (foldl_slStep red l.reverse (fun en hen => hl en (by simpa using hen)) (fun en hen => hasc en (by simpa using hen)) [] (Or.inl rfl)).1
   simpa using this
 
 theorem txtOf_markElided (l : List Entry) : txtOf (markElided l).reverse = [] := by
@@ -785,35 +813,38 @@ theorem runOps_nil (detail : Bool) : runOps detail [] = { wantDetail := detail }
 structure EntryIs (en : Entry) (txt : Str) : Prop where
   head : stripT en.head = txt
   noElide : en.elideShort = false
+  asc : Ascii txt
+
+theorem Ascii_nil : Ascii [] := by intro c hc; simp at hc
 
 theorem EntryIs.good {en : Entry} {txt : Str} (h : EntryIs en txt) (hne : txt ≠ []) : GoodHead en :=
   Or.inr (by rw [h.head]; exact hne)
 
 theorem entry_safe (segs : List SegT) (hs : ∀ g ∈ segs, g.ascii) (hr : Reg (segs.flatMap SegT.content))
-    (b wd : Bool) (d : Nat) (t : Str) :
-    EntryIs (collect (runOps false [.safe segs]) b false wd d t) (segs.flatMap SegT.content) := by
+    (b red wd : Bool) (d : Nat) (t : Str) :
+    EntryIs (collect (runOps false [.safe segs]) b red wd d t) (segs.flatMap SegT.content) := by
   obtain ⟨h1, _⟩ := stripT_assembleT_ascii segs hs
   have hr' : Reg (stripT (assembleT segs)) := by rw [h1]; exact hr
   obtain ⟨w1, w2, w3⟩ := write_fresh (assembleT segs) hr'
   rw [runOps_single]
-  show EntryIs (collect (({ wantDetail := false } : LState).write (assembleT segs)) b false wd d t) _
-  obtain ⟨c1, c2⟩ := collect_plain_head _ b wd d t w3 w2
-  exact ⟨by rw [c1, w1, h1], c2⟩
+  show EntryIs (collect (({ wantDetail := false } : LState).write (assembleT segs)) b red wd d t) _
+  obtain ⟨c1, c2⟩ := collect_plain_head _ b red wd d t w3 w2
+  exact ⟨by rw [c1, w1, h1], c2, hr.ascii⟩
 
-theorem entry_plain (s : Str) (hr : Reg s) (b wd : Bool) (d : Nat) (t : Str) :
-    EntryIs (collect (runOps false [.plain s]) b false wd d t) s := by
+theorem entry_plain (s : Str) (hr : Reg s) (b red wd : Bool) (d : Nat) (t : Str) :
+    EntryIs (collect (runOps false [.plain s]) b red wd d t) s := by
   have hr' : Reg (stripT (bytesU s)) := by rw [stripT_bytesU]; exact hr
   obtain ⟨w1, w2, w3⟩ := write_fresh (bytesU s) hr'
   rw [runOps_single]
-  show EntryIs (collect (({ wantDetail := false } : LState).write (bytesU s)) b false wd d t) _
-  obtain ⟨c1, c2⟩ := collect_plain_head _ b wd d t w3 w2
-  exact ⟨by rw [c1, w1, stripT_bytesU], c2⟩
+  show EntryIs (collect (({ wantDetail := false } : LState).write (bytesU s)) b red wd d t) _
+  obtain ⟨c1, c2⟩ := collect_plain_head _ b red wd d t w3 w2
+  exact ⟨by rw [c1, w1, stripT_bytesU], c2, hr.ascii⟩
 
-theorem entry_none (b wd : Bool) (d : Nat) (t : Str) :
-    (collect (runOps false []) b false wd d t).head = [] ∧ (collect (runOps false []) b false wd d t).elideShort = false := by
+theorem entry_none (b red wd : Bool) (d : Nat) (t : Str) :
+    (collect (runOps false []) b red wd d t).head = [] ∧ (collect (runOps false []) b red wd d t).elideShort = false := by
   rw [runOps_nil]
   unfold collect
-  cases b <;> simp [stripT, stripToks, bytesT]
+  cases b <;> cases red <;> simp [stripT, stripToks, bytesT]
 
 theorem withStackOf_head (en : Entry) (ls : Stack) (st : Option Stack) :
     (withStackOf en ls st).1.head = en.head ∧ (withStackOf en ls st).1.elideShort = en.elideShort := by
@@ -832,82 +863,82 @@ theorem RegR.seg {p : Str} (h : RegR p) : ∀ g ∈ [SegT.pre p], g.ascii := by
 def LeafKind.regular (k : LeafKind) : Prop :=
   Reg (leafText k) ∧ (match k with | .leafError msg => RegR msg | _ => True)
 
-theorem ents_leaf_special (id : Ident) (k : LeafKind) (hreg : Reg (leafText k)) (wd : Bool) (d : Nat) :
-    EntryIs (collect (runOps false [.safe [.lit (leafText k)]]) true false wd d (Err.leaf id k).ty.tstr) (leafText k) := by
-  have := entry_safe [.lit (leafText k)] (by intro g hg; simp at hg; subst hg; exact hreg.ascii) (by simpa [SegT.content] using hreg) true wd d (Err.leaf id k).ty.tstr
+theorem ents_leaf_special (id : Ident) (k : LeafKind) (hreg : Reg (leafText k)) (red wd : Bool) (d : Nat) :
+    EntryIs (collect (runOps false [.safe [.lit (leafText k)]]) true red wd d (Err.leaf id k).ty.tstr) (leafText k) := by
+  have := entry_safe [.lit (leafText k)] (by intro g hg; simp at hg; subst hg; exact hreg.ascii) (by simpa [SegT.content] using hreg) true red wd d (Err.leaf id k).ty.tstr
   simpa [SegT.content] using this
 
-theorem ents_leaf_default (id : Ident) (k : LeafKind) (hreg : Reg (leafText k)) (wd : Bool) (d : Nat) :
-    EntryIs (collect (runOps false (if leafText k ≠ [] then [.plain (leafText k)] else [])) false false wd d (Err.leaf id k).ty.tstr) (leafText k) := by
+theorem ents_leaf_default (id : Ident) (k : LeafKind) (hreg : Reg (leafText k)) (red wd : Bool) (d : Nat) :
+    EntryIs (collect (runOps false (if leafText k ≠ [] then [.plain (leafText k)] else [])) false red wd d (Err.leaf id k).ty.tstr) (leafText k) := by
   have hne : leafText k ≠ [] := hreg.ne
   simp only [hne, ne_eq, not_false_eq_true, if_true]
-  exact entry_plain (leafText k) hreg false wd d (Err.leaf id k).ty.tstr
+  exact entry_plain (leafText k) hreg false red wd d (Err.leaf id k).ty.tstr
 
-theorem ents_leaf_text (id : Ident) (k : LeafKind) (hk : k.regular) (o wd : Bool) (d : Nat) (ls : Stack) :
-    ∃ en, (ents false false (.leaf id k) o wd d ls).1 = [en] ∧ EntryIs en (leafText k) := by
+theorem ents_leaf_text (id : Ident) (k : LeafKind) (hk : k.regular) (red o wd : Bool) (d : Nat) (ls : Stack) :
+    ∃ en, (ents red false (.leaf id k) o wd d ls).1 = [en] ∧ EntryIs en (leafText k) := by
   obtain ⟨hreg, hk2⟩ := hk
   have hasc : Ascii (leafText k) := hreg.ascii
   cases k with
   | leafError msg =>
     unfold ents; simp only [leafScript]
-    have := entry_safe [.pre msg] (RegR.seg hk2) (by simpa [SegT.content, leafText] using hk2.reg) true wd d (Err.leaf id (.leafError msg)).ty.tstr
+    have := entry_safe [.pre msg] (RegR.seg hk2) (by simpa [SegT.content, leafText] using hk2.reg) true red wd d (Err.leaf id (.leafError msg)).ty.tstr
     exact ⟨_, rfl, by simpa [SegT.content, leafText] using this⟩
   | unimplemented msg url dt =>
     unfold ents; simp only [leafScript, Bool.false_eq_true, if_false, List.append_nil]
-    have := entry_safe [.arg msg] (by intro g hg; simp at hg; subst hg; exact hasc) (by simpa [SegT.content, leafText] using hreg) true wd d (Err.leaf id (.unimplemented msg url dt)).ty.tstr
+    have := entry_safe [.arg msg] (by intro g hg; simp at hg; subst hg; exact hasc) (by simpa [SegT.content, leafText] using hreg) true red wd d (Err.leaf id (.unimplemented msg url dt)).ty.tstr
     exact ⟨_, rfl, by simpa [SegT.content, leafText] using this⟩
   | opaqueLeaf msg dd hid =>
     unfold ents; simp only [leafScript, Bool.false_eq_true, if_false, List.append_nil]
-    have := entry_safe [.arg msg] (by intro g hg; simp at hg; subst hg; exact hasc) (by simpa [SegT.content, leafText] using hreg) true wd d (Err.leaf id (.opaqueLeaf msg dd hid)).ty.tstr
+    have := entry_safe [.arg msg] (by intro g hg; simp at hg; subst hg; exact hasc) (by simpa [SegT.content, leafText] using hreg) true red wd d (Err.leaf id (.opaqueLeaf msg dd hid)).ty.tstr
     exact ⟨_, rfl, by simpa [SegT.content, leafText] using this⟩
   | pkgFundamental msg st =>
     unfold ents; simp only [leafScript, Bool.false_eq_true, if_false]
-    have hp := entry_plain msg (by simpa [leafText] using hreg) false wd d (Err.leaf id (.pkgFundamental msg st)).ty.tstr
+    have hp := entry_plain msg (by simpa [leafText] using hreg) false red wd d (Err.leaf id (.pkgFundamental msg st)).ty.tstr
     split
     · exact ⟨_, rfl, by simpa [leafText] using hp⟩
-    · obtain ⟨w1, w2⟩ := withStackOf_head (collect (runOps false [.plain msg]) false false wd d (Err.leaf id (.pkgFundamental msg st)).ty.tstr) ls (some st)
-      exact ⟨_, rfl, ⟨by rw [w1]; simpa [leafText] using hp.head, by rw [w2]; exact hp.noElide⟩⟩
+    · obtain ⟨w1, w2⟩ := withStackOf_head (collect (runOps false [.plain msg]) false red wd d (Err.leaf id (.pkgFundamental msg st)).ty.tstr) ls (some st)
+      exact ⟨_, rfl, ⟨by rw [w1]; simpa [leafText] using hp.head, by rw [w2]; exact hp.noElide, hasc⟩⟩
   | errno n msg a b c dd e =>
     unfold ents; simp only [leafScript]
     split
-    · exact ⟨_, rfl, ents_leaf_special id _ hreg wd d⟩
-    · have := entry_safe [.lit msg] (by intro g hg; simp at hg; subst hg; exact (by simpa [leafText] using hasc : Ascii msg)) (by simpa [SegT.content, leafText] using hreg) true wd d (Err.leaf id (.errno n msg a b c dd e)).ty.tstr
+    · exact ⟨_, rfl, ents_leaf_special id _ hreg red wd d⟩
+    · have := entry_safe [.lit msg] (by intro g hg; simp at hg; subst hg; exact (by simpa [leafText] using hasc : Ascii msg)) (by simpa [SegT.content, leafText] using hreg) true red wd d (Err.leaf id (.errno n msg a b c dd e)).ty.tstr
       exact ⟨_, rfl, by simpa [SegT.content, leafText] using this⟩
   | errorString m =>
     unfold ents; simp only [leafScript]
     split
-    · exact ⟨_, rfl, ents_leaf_special id _ hreg wd d⟩
-    · exact ⟨_, rfl, ents_leaf_default id _ hreg wd d⟩
+    · exact ⟨_, rfl, ents_leaf_special id _ hreg red wd d⟩
+    · exact ⟨_, rfl, ents_leaf_default id _ hreg red wd d⟩
   | deadline =>
     unfold ents; simp only [leafScript]
     split
-    · exact ⟨_, rfl, ents_leaf_special id _ hreg wd d⟩
-    · exact ⟨_, rfl, ents_leaf_default id _ hreg wd d⟩
+    · exact ⟨_, rfl, ents_leaf_special id _ hreg red wd d⟩
+    · exact ⟨_, rfl, ents_leaf_default id _ hreg red wd d⟩
   | opaqueErrno m n ar a b c dd e =>
     unfold ents; simp only [leafScript]
     split
-    · exact ⟨_, rfl, ents_leaf_special id _ hreg wd d⟩
-    · exact ⟨_, rfl, ents_leaf_default id _ hreg wd d⟩
+    · exact ⟨_, rfl, ents_leaf_special id _ hreg red wd d⟩
+    · exact ⟨_, rfl, ents_leaf_default id _ hreg red wd d⟩
   | testErr =>
     unfold ents; simp only [leafScript]
     split
-    · exact ⟨_, rfl, ents_leaf_special id _ hreg wd d⟩
-    · exact ⟨_, rfl, ents_leaf_default id _ hreg wd d⟩
+    · exact ⟨_, rfl, ents_leaf_special id _ hreg red wd d⟩
+    · exact ⟨_, rfl, ents_leaf_default id _ hreg red wd d⟩
   | grpcStatus c m n =>
     unfold ents; simp only [leafScript]
     split
-    · exact ⟨_, rfl, ents_leaf_special id _ hreg wd d⟩
-    · exact ⟨_, rfl, ents_leaf_default id _ hreg wd d⟩
+    · exact ⟨_, rfl, ents_leaf_special id _ hreg red wd d⟩
+    · exact ⟨_, rfl, ents_leaf_default id _ hreg red wd d⟩
   | gogoStatus c m n =>
     unfold ents; simp only [leafScript]
     split
-    · exact ⟨_, rfl, ents_leaf_special id _ hreg wd d⟩
-    · exact ⟨_, rfl, ents_leaf_default id _ hreg wd d⟩
+    · exact ⟨_, rfl, ents_leaf_special id _ hreg red wd d⟩
+    · exact ⟨_, rfl, ents_leaf_default id _ hreg red wd d⟩
   | user u m =>
     unfold ents; simp only [leafScript]
     split
-    · exact ⟨_, rfl, ents_leaf_special id _ hreg wd d⟩
-    · exact ⟨_, rfl, ents_leaf_default id _ hreg wd d⟩
+    · exact ⟨_, rfl, ents_leaf_special id _ hreg red wd d⟩
+    · exact ⟨_, rfl, ents_leaf_default id _ hreg red wd d⟩
 
 end ErrModel
 
@@ -947,6 +978,7 @@ structure WrapEntry (k : WrapKind) (ct : Str) (en : Entry) (elide : Bool) : Prop
   vis : en.head = [] → elide = false
   txt : (if en.head = [] then (if elide then [] else ct)
          else stripT en.head ++ (if elide ∨ ct = [] then [] else colonSp ++ ct)) = wrapText k ct
+  asc : Ascii (stripT en.head)
 
 theorem sp_ascii : Ascii sp := by intro c hc; simp [sp] at hc; subst hc; decide
 
@@ -954,44 +986,44 @@ theorem sp_ascii : Ascii sp := by intro c hc; simp [sp] at hc; subst hc; decide
     instead of it), reassembles the wrapper's own Error() text -/
 theorem simple_entry (k : WrapKind) (ct : Str) (hct : ct ≠ [])
     (h1 : wrapText k ct ≠ colonSp ++ ct) (h2 : wrapText k ct ≠ [])
-    (h3 : (extractPrefix (wrapText k ct) ct).1 = [] ∨ Reg (extractPrefix (wrapText k ct) ct).1) (wd : Bool) (d : Nat) (t : Str) :
-    WrapEntry k ct (collect (runOps false (simpleWrapOps (wrapText k ct) ct).1) false false wd d t)
+    (h3 : (extractPrefix (wrapText k ct) ct).1 = [] ∨ Reg (extractPrefix (wrapText k ct) ct).1) (red wd : Bool) (d : Nat) (t : Str) :
+    WrapEntry k ct (collect (runOps false (simpleWrapOps (wrapText k ct) ct).1) false red wd d t)
       (simpleWrapOps (wrapText k ct) ct).2 := by
   have hre := extract_reassemble (wrapText k ct) ct h1
   unfold simpleWrapOps
   simp only []
   rcases h3 with hp | hp
   · simp only [hp, ne_eq, not_true_eq_false, if_false]
-    obtain ⟨e1, e2⟩ := entry_none false wd d t
+    obtain ⟨e1, e2⟩ := entry_none false red wd d t
     rw [hp] at hre
     simp only [opaqueText] at hre
     have hnf : (extractPrefix (wrapText k ct) ct).2 ≠ mtFull := by
       intro hm; simp [hm] at hre; exact h2 hre
-    refine ⟨e2, Or.inl e1, fun _ => by simp [hnf], ?_⟩
+    refine ⟨e2, Or.inl e1, fun _ => by simp [hnf], ?_, by rw [e1]; exact Ascii_nil⟩
     simp only [e1, if_true]
     simp [hnf] at hre ⊢; exact hre
   · have hne : (extractPrefix (wrapText k ct) ct).1 ≠ [] := hp.ne
     simp only [hne, ne_eq, not_false_eq_true, if_true]
-    have he := entry_plain _ hp false wd d t
-    have hh : (collect (runOps false [.plain (extractPrefix (wrapText k ct) ct).1]) false false wd d t).head ≠ [] := by
+    have he := entry_plain _ hp false red wd d t
+    have hh : (collect (runOps false [.plain (extractPrefix (wrapText k ct) ct).1]) false red wd d t).head ≠ [] := by
       intro h0; have := he.head; rw [h0] at this; simp at this; exact hne this
-    refine ⟨he.noElide, he.good hne, fun h0 => absurd h0 hh, ?_⟩
+    refine ⟨he.noElide, he.good hne, fun h0 => absurd h0 hh, ?_, by rw [he.head]; exact he.asc⟩
     simp only [hh, if_false, he.head]
     simp only [opaqueText, hne, if_false] at hre
     by_cases hm : (extractPrefix (wrapText k ct) ct).2 = mtFull
     · simp [hm] at hre ⊢; exact hre
     · simp [hm, hct, pfx] at hre ⊢; exact hre
 
-theorem wrapOpsOf_entry (k : WrapKind) (ct : Str) (hct : ct ≠ []) (hk : k.regular ct) (wd : Bool) (d : Nat) (t : Str) :
-    WrapEntry k ct (collect (runOps false (wrapOpsOf k false ct).1) (wrapOpsOf k false ct).2.2 false wd d t)
+theorem wrapOpsOf_entry (k : WrapKind) (ct : Str) (hct : ct ≠ []) (hk : k.regular ct) (red wd : Bool) (d : Nat) (t : Str) :
+    WrapEntry k ct (collect (runOps false (wrapOpsOf k false ct).1) (wrapOpsOf k false ct).2.2 red wd d t)
       (wrapOpsOf k false ct).2.1 := by
   have none_case : ∀ (b : Bool), (wrapOpsOf k false ct).1 = [] → (wrapOpsOf k false ct).2.1 = false → wrapText k ct = ct →
       (wrapOpsOf k false ct).2.2 = b →
-      WrapEntry k ct (collect (runOps false (wrapOpsOf k false ct).1) (wrapOpsOf k false ct).2.2 false wd d t) (wrapOpsOf k false ct).2.1 := by
+      WrapEntry k ct (collect (runOps false (wrapOpsOf k false ct).1) (wrapOpsOf k false ct).2.2 red wd d t) (wrapOpsOf k false ct).2.1 := by
     intro b h1 h2 h3 h4
     rw [h1, h2]
-    obtain ⟨e1, e2⟩ := entry_none (wrapOpsOf k false ct).2.2 wd d t
-    exact ⟨e2, Or.inl e1, fun _ => rfl, by simp [e1, h3]⟩
+    obtain ⟨e1, e2⟩ := entry_none (wrapOpsOf k false ct).2.2 red wd d t
+    exact ⟨e2, Or.inl e1, fun _ => rfl, by simp [e1, h3], by rw [e1]; exact Ascii_nil⟩
   cases k with
   | withStack st => exact none_case true rfl rfl rfl rfl
   | withHint h => exact none_case false rfl rfl rfl rfl
@@ -1016,36 +1048,36 @@ theorem wrapOpsOf_entry (k : WrapKind) (ct : Str) (hct : ct ≠ []) (hk : k.regu
       have : runOps false [.safe [.pre []]] = { wantDetail := false } := by
         rw [runOps_single]; simp [runOp, hasm, LState.write]
       rw [this]
-      obtain ⟨e1, e2⟩ := entry_none true wd d t
+      obtain ⟨e1, e2⟩ := entry_none true red wd d t
       rw [runOps_nil] at e1 e2
-      exact ⟨e2, Or.inl e1, fun _ => rfl, by simp [e1, wrapText]⟩
+      exact ⟨e2, Or.inl e1, fun _ => rfl, by simp [e1, wrapText], by rw [e1]; exact Ascii_nil⟩
     · have hw : (wrapOpsOf (.withPrefix p) false ct) = ([.safe [.pre p]], false, true) := rfl
       rw [hw]
-      have he := entry_safe [.pre p] (RegR.seg hp) (by simpa [SegT.content] using hp.reg) true wd d t
+      have he := entry_safe [.pre p] (RegR.seg hp) (by simpa [SegT.content] using hp.reg) true red wd d t
       have hne : stripMarkers p ≠ [] := hp.reg.ne
-      have hh : (collect (runOps false [.safe [.pre p]]) true false wd d t).head ≠ [] := by
+      have hh : (collect (runOps false [.safe [.pre p]]) true red wd d t).head ≠ [] := by
         intro h0; have := he.head; rw [h0] at this; simp [SegT.content] at this; exact hne this
-      refine ⟨he.noElide, he.good (by simpa [SegT.content] using hne), fun h0 => absurd h0 hh, ?_⟩
+      refine ⟨he.noElide, he.good (by simpa [SegT.content] using hne), fun h0 => absurd h0 hh, ?_, by rw [he.head]; exact he.asc⟩
       have hpne : p ≠ [] := by intro h0; subst h0; simp [stripMarkers, lex, stripToks] at hne
       simp [hh, he.head, SegT.content, wrapText, hpne, hct, pfx]
   | withNewMessage m =>
     have hw : (wrapOpsOf (.withNewMessage m) false ct) = ([.safe [.pre m]], true, true) := rfl
     rw [hw]
-    have he := entry_safe [.pre m] (RegR.seg hk) (by simpa [SegT.content] using hk.reg) true wd d t
+    have he := entry_safe [.pre m] (RegR.seg hk) (by simpa [SegT.content] using hk.reg) true red wd d t
     have hne : stripMarkers m ≠ [] := hk.reg.ne
-    have hh : (collect (runOps false [.safe [.pre m]]) true false wd d t).head ≠ [] := by
+    have hh : (collect (runOps false [.safe [.pre m]]) true red wd d t).head ≠ [] := by
       intro h0; have := he.head; rw [h0] at this; simp [SegT.content] at this; exact hne this
-    exact ⟨he.noElide, he.good (by simpa [SegT.content] using hne), fun h0 => absurd h0 hh, by simp [hh, he.head, SegT.content, wrapText]⟩
+    exact ⟨he.noElide, he.good (by simpa [SegT.content] using hne), fun h0 => absurd h0 hh, by simp [hh, he.head, SegT.content, wrapText], by rw [he.head]; exact he.asc⟩
   | opaqueWrapper p dd mt hid =>
     by_cases hp : p = []
     · subst hp
       have hw : (wrapOpsOf (.opaqueWrapper [] dd mt hid) false ct) = ([], decide (mt = mtFull), true) := by
         simp [wrapOpsOf, wrapScript]
       rw [hw]
-      obtain ⟨e1, e2⟩ := entry_none true wd d t
+      obtain ⟨e1, e2⟩ := entry_none true red wd d t
       by_cases hm : mt = mtFull
       · simp [WrapKind.regular, hm] at hk; exact absurd rfl hk.ne
-      · exact ⟨e2, Or.inl e1, fun _ => by simp [hm], by simp [e1, wrapText, hm]⟩
+      · exact ⟨e2, Or.inl e1, fun _ => by simp [hm], by simp [e1, wrapText, hm], by rw [e1]; exact Ascii_nil⟩
     · have hw : (wrapOpsOf (.opaqueWrapper p dd mt hid) false ct) = ([.safe [.arg p]], decide (mt = mtFull), true) := by
         simp [wrapOpsOf, wrapScript, hp]
       rw [hw]
@@ -1053,10 +1085,10 @@ theorem wrapOpsOf_entry (k : WrapKind) (ct : Str) (hct : ct ≠ []) (hk : k.regu
         by_cases hm : mt = mtFull
         · simpa [WrapKind.regular, hm] using hk
         · have := hk; simp only [WrapKind.regular, hm, if_false] at this; rcases this with h | h; exact absurd h hp; exact h
-      have he := entry_safe [.arg p] (by intro g hg; simp at hg; subst hg; exact hreg.ascii) (by simpa [SegT.content] using hreg) true wd d t
-      have hh : (collect (runOps false [.safe [.arg p]]) true false wd d t).head ≠ [] := by
+      have he := entry_safe [.arg p] (by intro g hg; simp at hg; subst hg; exact hreg.ascii) (by simpa [SegT.content] using hreg) true red wd d t
+      have hh : (collect (runOps false [.safe [.arg p]]) true red wd d t).head ≠ [] := by
         intro h0; have := he.head; rw [h0] at this; simp [SegT.content] at this; exact hp this
-      refine ⟨he.noElide, he.good (by simpa [SegT.content] using hp), fun h0 => absurd h0 hh, ?_⟩
+      refine ⟨he.noElide, he.good (by simpa [SegT.content] using hp), fun h0 => absurd h0 hh, ?_, by rw [he.head]; exact he.asc⟩
       by_cases hm : mt = mtFull <;> simp [hh, he.head, SegT.content, wrapText, hm, hp, hct, pfx]
   | pathError op path =>
     obtain ⟨hr, ho, hpa⟩ := hk
@@ -1064,11 +1096,11 @@ theorem wrapOpsOf_entry (k : WrapKind) (ct : Str) (hct : ct ≠ []) (hk : k.regu
     rw [hw]
     have he := entry_safe [.lit op, .lit sp, .arg path]
       (by intro g hg; simp at hg; rcases hg with rfl | rfl | rfl; exact ho; exact sp_ascii; exact hpa)
-      (by simpa [SegT.content, List.append_assoc] using hr) true wd d t
+      (by simpa [SegT.content, List.append_assoc] using hr) true red wd d t
     have hne : op ++ sp ++ path ≠ [] := hr.ne
-    have hh : (collect (runOps false [.safe [.lit op, .lit sp, .arg path]]) true false wd d t).head ≠ [] := by
+    have hh : (collect (runOps false [.safe [.lit op, .lit sp, .arg path]]) true red wd d t).head ≠ [] := by
       intro h0; have := he.head; rw [h0] at this; simp [SegT.content] at this; exact hne (by simp [this.1, this.2.1, this.2.2])
-    refine ⟨he.noElide, he.good (by simpa [SegT.content, List.append_assoc] using hne), fun h0 => absurd h0 hh, ?_⟩
+    refine ⟨he.noElide, he.good (by simpa [SegT.content, List.append_assoc] using hne), fun h0 => absurd h0 hh, ?_, by rw [he.head]; exact he.asc⟩
     simp [hh, he.head, SegT.content, wrapText, hct, pfx, List.append_assoc]
   | linkError op old new =>
     obtain ⟨hr, ho, hol, hnw⟩ := hk
@@ -1076,26 +1108,26 @@ theorem wrapOpsOf_entry (k : WrapKind) (ct : Str) (hct : ct ≠ []) (hk : k.regu
     rw [hw]
     have he := entry_safe [.lit op, .lit sp, .arg old, .lit sp, .arg new]
       (by intro g hg; simp at hg; rcases hg with rfl | rfl | rfl | rfl | rfl; exact ho; exact sp_ascii; exact hol; exact sp_ascii; exact hnw)
-      (by simpa [SegT.content, List.append_assoc] using hr) true wd d t
+      (by simpa [SegT.content, List.append_assoc] using hr) true red wd d t
     have hne : op ++ sp ++ old ++ sp ++ new ≠ [] := hr.ne
-    have hh : (collect (runOps false [.safe [.lit op, .lit sp, .arg old, .lit sp, .arg new]]) true false wd d t).head ≠ [] := by
+    have hh : (collect (runOps false [.safe [.lit op, .lit sp, .arg old, .lit sp, .arg new]]) true red wd d t).head ≠ [] := by
       intro h0; have := he.head; rw [h0] at this; simp [SegT.content, sp] at this
-    refine ⟨he.noElide, he.good (by simpa [SegT.content, List.append_assoc] using hne), fun h0 => absurd h0 hh, ?_⟩
+    refine ⟨he.noElide, he.good (by simpa [SegT.content, List.append_assoc] using hne), fun h0 => absurd h0 hh, ?_, by rw [he.head]; exact he.asc⟩
     simp [hh, he.head, SegT.content, wrapText, hct, pfx, List.append_assoc]
   | syscallError scn =>
     have hw : (wrapOpsOf (.syscallError scn) false ct) = ([.safe [.lit scn]], false, true) := rfl
     rw [hw]
     have hk : Reg scn := hk
-    have he := entry_safe [.lit scn] (by intro g hg; simp at hg; subst hg; exact hk.ascii) (by simpa [SegT.content] using hk) true wd d t
+    have he := entry_safe [.lit scn] (by intro g hg; simp at hg; subst hg; exact hk.ascii) (by simpa [SegT.content] using hk) true red wd d t
     have hne : scn ≠ [] := hk.ne
-    have hh : (collect (runOps false [.safe [.lit scn]]) true false wd d t).head ≠ [] := by
+    have hh : (collect (runOps false [.safe [.lit scn]]) true red wd d t).head ≠ [] := by
       intro h0; have := he.head; rw [h0] at this; simp [SegT.content] at this; exact hne this
-    refine ⟨he.noElide, he.good (by simpa [SegT.content] using hne), fun h0 => absurd h0 hh, ?_⟩
+    refine ⟨he.noElide, he.good (by simpa [SegT.content] using hne), fun h0 => absurd h0 hh, ?_, by rw [he.head]; exact he.asc⟩
     simp [hh, he.head, SegT.content, wrapText, hct, pfx]
-  | pkgWithMessage m => exact simple_entry _ ct hct hk.1 hk.2.1 hk.2.2 wd d t
-  | pkgWithStack st => exact simple_entry _ ct hct hk.1 hk.2.1 hk.2.2 wd d t
-  | fmtWrapError m => exact simple_entry _ ct hct hk.1 hk.2.1 hk.2.2 wd d t
-  | user u msg => exact simple_entry _ ct hct hk.1 hk.2.1 hk.2.2 wd d t
+  | pkgWithMessage m => exact simple_entry _ ct hct hk.1 hk.2.1 hk.2.2 red wd d t
+  | pkgWithStack st => exact simple_entry _ ct hct hk.1 hk.2.1 hk.2.2 red wd d t
+  | fmtWrapError m => exact simple_entry _ ct hct hk.1 hk.2.1 hk.2.2 red wd d t
+  | user u msg => exact simple_entry _ ct hct hk.1 hk.2.1 hk.2.2 red wd d t
 
 end ErrModel
 
@@ -1119,9 +1151,16 @@ structure VText (e : Err) (E : List Entry) : Prop where
   good : ∀ en ∈ E, en.elideShort = false → GoodHead en
   txt : txtOf E.reverse = errText e
   ne : errText e ≠ []
+  asc : ∀ en ∈ E, en.elideShort = false → Ascii (stripT en.head)
+
+theorem not_elided_markElided {sub : List Entry} {x : Entry} (h1 : x ∈ markElided sub) (hxe : x.elideShort = false) : False := by
+  simp only [markElided, List.mem_map] at h1
+  obtain ⟨e0, _, rfl⟩ := h1
+  simp at hxe
 
 theorem VText_single (e : Err) (en : Entry) (h : EntryIs en (errText e)) (hne : errText e ≠ []) : VText e [en] := by
-  refine ⟨fun x hx _ => by simp at hx; subst hx; exact h.good hne, ?_, hne⟩
+  refine ⟨fun x hx _ => by simp at hx; subst hx; exact h.good hne, ?_, hne,
+    fun x hx _ => by simp at hx; subst hx; rw [h.head]; exact h.asc⟩
   have hh : en.head ≠ [] := by intro h0; have := h.head; rw [h0] at this; simp at this; exact hne this
   simp [txtOf, h.noElide, hh, h.head]
 
@@ -1132,74 +1171,74 @@ theorem errText_wrap (id : Ident) (k : WrapKind) (c : Err)
     errText (.wrap id k c) = wrapText k (errText c) := by
   cases k <;> simp [errText, wrapText, hc] <;> (try split) <;> simp_all [pfx]
 
-theorem multi_default_vtext (e : Err) (sub : List Entry) (t : Str) (ht : t = errText e) (hr : Reg t) (wd : Bool) (d : Nat) (ts : Str) :
-    VText e (markElided sub ++ [collect (runOps false (if t ≠ [] then [.plain t] else [])) false false wd d ts]) := by
+theorem multi_default_vtext (e : Err) (sub : List Entry) (t : Str) (ht : t = errText e) (hr : Reg t) (red wd : Bool) (d : Nat) (ts : Str) :
+    VText e (markElided sub ++ [collect (runOps false (if t ≠ [] then [.plain t] else [])) false red wd d ts]) := by
   subst ht
   have ht : errText e = errText e := rfl
   have hne : errText e ≠ [] := hr.ne
   simp only [hne, ne_eq, not_false_eq_true, if_true]
-  have hE := entry_plain (errText e) hr false wd d ts
+  have hE := entry_plain (errText e) hr false red wd d ts
   have hne' : errText e ≠ [] := hne
-  refine ⟨?_, ?_, hne'⟩
+  refine ⟨?_, ?_, hne', ?_⟩
   · intro x hx hxe
     rcases List.mem_append.mp hx with h1 | h1
-    · exfalso
-      simp only [markElided, List.mem_map] at h1
-      obtain ⟨e0, _, rfl⟩ := h1
-      simp at hxe
+    · exact (not_elided_markElided h1 hxe).elim
     · simp at h1; subst h1; exact hE.good hne
+  rotate_left
+  · intro x hx hxe
+    rcases List.mem_append.mp hx with h1 | h1
+    · exact (not_elided_markElided h1 hxe).elim
+    · simp at h1; subst h1; rw [hE.head]; exact hE.asc
   · rw [txtOf_snoc]
-    have hh : (collect (runOps false [.plain (errText e)]) false false wd d ts).head ≠ [] := by
+    have hh : (collect (runOps false [.plain (errText e)]) false red wd d ts).head ≠ [] := by
       intro h0; have := hE.head; rw [h0] at this; simp at this; exact hne this
     simp [hE.noElide, hh, txtOf_markElided, hE.head]
 
-theorem v_text : (e : Err) → RegE e → ∀ (o wd : Bool) (d : Nat) (ls : Stack), VText e (ents false false e o wd d ls).1
-  | .leaf id k, h, o, wd, d, ls => by
-    obtain ⟨en, he, hen⟩ := ents_leaf_text id k h o wd d ls
+theorem v_text : (e : Err) → RegE e → ∀ (red o wd : Bool) (d : Nat) (ls : Stack), VText e (ents red false e o wd d ls).1
+  | .leaf id k, h, red, o, wd, d, ls => by
+    obtain ⟨en, he, hen⟩ := ents_leaf_text id k h red o wd d ls
     rw [he]
     exact VText_single _ en (by simpa [errText] using hen) (by simpa [errText] using h.1.ne)
-  | .barrier id m hd, h, o, wd, d, ls => by
+  | .barrier id m hd, h, red, o, wd, d, ls => by
     unfold ents
-    have he := entry_safe [.pre m.smsg] (RegR.seg h) (by simpa [SegT.content] using h.reg) true wd d tnBarrier.tstr
+    have he := entry_safe [.pre m.smsg] (RegR.seg h) (by simpa [SegT.content] using h.reg) true red wd d tnBarrier.tstr
     have : barrierScript m [] false = [.safe [.pre m.smsg]] := by simp [barrierScript]
     simp only [Bool.false_eq_true, if_false, this]
     exact VText_single _ _ (by simpa [errText, SegT.content] using he) (by simpa [errText] using h.reg.ne)
-  | .wrap id k c, h, o, wd, d, ls => by
+  | .wrap id k c, h, red, o, wd, d, ls => by
     obtain ⟨hc, hk⟩ := h
-    have ihc : ∀ o wd d ls, VText c (ents false false c o wd d ls).1 := v_text c hc
+    have ihc : ∀ red o wd d ls, VText c (ents red false c o wd d ls).1 := v_text c hc
     have hsl : ∀ o wd d ls, stripT (singleLine false (ents false false c o wd d ls).1) = errText c := by
       intro o wd d ls
-      rw [stripT_singleLine _ (ihc o wd d ls).good, (ihc o wd d ls).txt]
-    have hct : errText c ≠ [] := (ihc false wd (d + 1) ls).ne
+      rw [stripT_singleLine false _ (ihc false o wd d ls).good (ihc false o wd d ls).asc, (ihc false o wd d ls).txt]
+    have hct : errText c ≠ [] := (ihc red false wd (d + 1) ls).ne
     have hew := errText_wrap id k c hsl
-    have ih := ihc false wd (d + 1) ls
-    have hwe := wrapOpsOf_entry k (errText c) hct hk wd d (Err.wrap id k c).ty.tstr
+    have ih := ihc red false wd (d + 1) ls
+    have hwe := wrapOpsOf_entry k (errText c) hct hk red wd d (Err.wrap id k c).ty.tstr
     obtain ⟨w1, w2⟩ := withStackOf_head
-      (collect (runOps false (wrapOpsOf k false (errText c)).1) (wrapOpsOf k false (errText c)).2.2 false wd d (Err.wrap id k c).ty.tstr)
-      (ents false false c false wd (d + 1) ls).2 (wrapStackOf k)
+      (collect (runOps false (wrapOpsOf k false (errText c)).1) (wrapOpsOf k false (errText c)).2.2 red wd d (Err.wrap id k c).ty.tstr)
+      (ents red false c false wd (d + 1) ls).2 (wrapStackOf k)
     unfold ents
     simp only []
     -- the entry of this layer
     generalize hen : (withStackOf
-      (collect (runOps false (wrapOpsOf k false (errText c)).1) (wrapOpsOf k false (errText c)).2.2 false wd d (Err.wrap id k c).ty.tstr)
-      (ents false false c false wd (d + 1) ls).2 (wrapStackOf k)).1 = en at w1 w2 ⊢
-    generalize hcol : collect (runOps false (wrapOpsOf k false (errText c)).1) (wrapOpsOf k false (errText c)).2.2 false wd d (Err.wrap id k c).ty.tstr = ce at hwe w1 w2
+      (collect (runOps false (wrapOpsOf k false (errText c)).1) (wrapOpsOf k false (errText c)).2.2 red wd d (Err.wrap id k c).ty.tstr)
+      (ents red false c false wd (d + 1) ls).2 (wrapStackOf k)).1 = en at w1 w2 ⊢
+    generalize hcol : collect (runOps false (wrapOpsOf k false (errText c)).1) (wrapOpsOf k false (errText c)).2.2 red wd d (Err.wrap id k c).ty.tstr = ce at hwe w1 w2
     have hgood : GoodHead en := by
       rcases hwe.good with g | g
       · exact Or.inl (by rw [w1]; exact g)
       · exact Or.inr (by rw [w1]; exact g)
     have hnel : en.elideShort = false := by rw [w2]; exact hwe.noElide
+    have hasc : Ascii (stripT en.head) := by rw [w1]; exact hwe.asc
     have htxt := hwe.txt
     have hvis := hwe.vis
     rw [← w1] at htxt hvis
-    refine ⟨?_, ?_, ?_⟩
+    refine ⟨?_, ?_, ?_, ?_⟩
     · intro x hx hxe
       rcases List.mem_append.mp hx with h1 | h1
       · split at h1
-        · exfalso
-          simp only [markElided, List.mem_map] at h1
-          obtain ⟨e0, _, rfl⟩ := h1
-          simp at hxe
+        · exact (not_elided_markElided h1 hxe).elim
         · exact ih.good x h1 hxe
       · simp at h1; subst h1; exact hgood
     · rw [txtOf_snoc]
@@ -1223,70 +1262,72 @@ theorem v_text : (e : Err) → RegE e → ∀ (o wd : Bool) (d : Nat) (ls : Stac
       · rcases hgood with g | g
         · exact absurd g hh
         · simp [hh, g]
-  | .second id c s, h, o, wd, d, ls => by
-    have ih := v_text c h false wd (d + 1) ls
+    · intro x hx hxe
+      rcases List.mem_append.mp hx with h1 | h1
+      · split at h1
+        · exact (not_elided_markElided h1 hxe).elim
+        · exact ih.asc x h1 hxe
+      · simp at h1; subst h1; exact hasc
+  | .second id c s, h, red, o, wd, d, ls => by
+    have ih := v_text c h red false wd (d + 1) ls
     unfold ents
     simp only [Bool.false_eq_true, if_false]
     have hs : secondScript [] false = [] := by simp [secondScript]
     rw [hs]
-    obtain ⟨e1, e2⟩ := entry_none true wd d tnSecondary.tstr
-    refine ⟨?_, ?_, ?_⟩
+    obtain ⟨e1, e2⟩ := entry_none true red wd d tnSecondary.tstr
+    refine ⟨?_, ?_, ?_, ?_⟩
     · intro x hx hxe
       rcases List.mem_append.mp hx with h1 | h1
       · exact ih.good x h1 hxe
       · simp at h1; subst h1; exact Or.inl e1
     · rw [txtOf_snoc]; simp [e1, ih.txt, errText]
     · simpa [errText] using ih.ne
-  | .multi id k cs, h, o, wd, d, ls => by
+    · intro x hx hxe
+      rcases List.mem_append.mp hx with h1 | h1
+      · exact ih.asc x h1 hxe
+      · simp at h1; subst h1; rw [e1]; exact Ascii_nil
+  | .multi id k cs, h, red, o, wd, d, ls => by
     have hne : errText (.multi id k cs) ≠ [] := h.ne
+    have hasc : Ascii (errText (.multi id k cs)) := h.ascii
     unfold ents
     simp only []
+    -- every branch entry is elided; the node's own entry carries the whole text
+    have single : ∀ (sub : List Entry) (en : Entry), EntryIs en (errText (.multi id k cs)) →
+        VText (.multi id k cs) (markElided sub ++ [en]) := by
+      intro sub en hE
+      have hh : en.head ≠ [] := by
+        intro h0; have := hE.head; rw [h0] at this; simp at this; exact hne this
+      refine ⟨?_, ?_, hne, ?_⟩
+      · intro x hx hxe
+        rcases List.mem_append.mp hx with h1 | h1
+        · exact (not_elided_markElided h1 hxe).elim
+        · simp at h1; subst h1; exact hE.good hne
+      · rw [txtOf_snoc]
+        simp [hE.noElide, hh, txtOf_markElided, hE.head]
+      · intro x hx hxe
+        rcases List.mem_append.mp hx with h1 | h1
+        · exact (not_elided_markElided h1 hxe).elim
+        · simp at h1; subst h1; rw [hE.head]; exact hE.asc
     cases k with
     | join =>
       simp only []
       -- the entry of a Join is built from the same buffer as its Error() text
       have hb : ∀ (S : LState) (wd : Bool) (d : Nat) (t : Str),
-          stripT (collect S true false wd d t).head = stripT (collect S true true false 0 []).head ∧
-          (collect S true false wd d t).elideShort = false := by
+          stripT (collect S true red wd d t).head = stripT (collect S true true false 0 []).head ∧
+          (collect S true red wd d t).elideShort = false := by
         intro S wd d t
         unfold collect
-        by_cases hw : S.wantDetail = true <;> by_cases hd : S.hasDetail = true <;> simp [hw, hd, stripT_bytesT]
+        cases red <;> by_cases hw : S.wantDetail = true <;> by_cases hd : S.hasDetail = true <;> simp [hw, hd, stripT_bytesT]
       obtain ⟨b1, b2⟩ := hb (runOps false (joinScript (rendVL cs))) wd d (Err.multi id .join cs).ty.tstr
-      have hE : EntryIs (collect (runOps false (joinScript (rendVL cs))) true false wd d (Err.multi id .join cs).ty.tstr) (errText (.multi id .join cs)) :=
-        ⟨by rw [b1]; simp [errText], b2⟩
-      refine ⟨?_, ?_, hne⟩
-      · intro x hx hxe
-        rcases List.mem_append.mp hx with h1 | h1
-        · exfalso
-          simp only [markElided, List.mem_map] at h1
-          obtain ⟨e0, _, rfl⟩ := h1
-          simp at hxe
-        · simp at h1; subst h1; exact hE.good hne
-      · rw [txtOf_snoc]
-        have hh : (collect (runOps false (joinScript (rendVL cs))) true false wd d (Err.multi id .join cs).ty.tstr).head ≠ [] := by
-          intro h0; have := hE.head; rw [h0] at this; simp at this; exact hne this
-        simp [hE.noElide, hh, txtOf_markElided, hE.head]
+      exact single _ _ ⟨by rw [b1]; simp [errText], b2, hasc⟩
     | opaqueLeafCauses msg dd hid =>
       simp only [leafScript, Bool.false_eq_true, if_false, List.append_nil, Option.getD_some]
       have hr : Reg msg := by have := h; simp only [RegE, errText, multiText] at this; exact this
-      have hE := entry_safe [.arg msg] (by intro g hg; simp at hg; subst hg; exact hr.ascii) (by simpa [SegT.content] using hr) true wd d (Err.multi id (.opaqueLeafCauses msg dd hid) cs).ty.tstr
-      have hE' : EntryIs (collect (runOps false [.safe [.arg msg]]) true false wd d (Err.multi id (.opaqueLeafCauses msg dd hid) cs).ty.tstr) (errText (.multi id (.opaqueLeafCauses msg dd hid) cs)) := by
-        simpa [SegT.content, errText, multiText] using hE
-      refine ⟨?_, ?_, hne⟩
-      · intro x hx hxe
-        rcases List.mem_append.mp hx with h1 | h1
-        · exfalso
-          simp only [markElided, List.mem_map] at h1
-          obtain ⟨e0, _, rfl⟩ := h1
-          simp at hxe
-        · simp at h1; subst h1; exact hE'.good hne
-      · rw [txtOf_snoc]
-        have hh : (collect (runOps false [.safe [.arg msg]]) true false wd d (Err.multi id (.opaqueLeafCauses msg dd hid) cs).ty.tstr).head ≠ [] := by
-          intro h0; have := hE'.head; rw [h0] at this; simp at this; exact hne this
-        simp [hE'.noElide, hh, txtOf_markElided, hE'.head]
-    | stdJoin => exact multi_default_vtext _ _ _ (by simp [errText]) (by simpa [RegE, errText] using h) wd d _
-    | fmtWrapErrors m => exact multi_default_vtext _ _ _ (by simp [errText]) (by simpa [RegE, errText] using h) wd d _
-    | user u m => exact multi_default_vtext _ _ _ (by simp [errText]) (by simpa [RegE, errText] using h) wd d _
+      have hE := entry_safe [.arg msg] (by intro g hg; simp at hg; subst hg; exact hr.ascii) (by simpa [SegT.content] using hr) true red wd d (Err.multi id (.opaqueLeafCauses msg dd hid) cs).ty.tstr
+      exact single _ _ (by simpa [SegT.content, errText, multiText] using hE)
+    | stdJoin => exact multi_default_vtext _ _ _ (by simp [errText]) (by simpa [RegE, errText] using h) red wd d _
+    | fmtWrapErrors m => exact multi_default_vtext _ _ _ (by simp [errText]) (by simpa [RegE, errText] using h) red wd d _
+    | user u m => exact multi_default_vtext _ _ _ (by simp [errText]) (by simpa [RegE, errText] using h) red wd d _
 
 end ErrModel
 
@@ -1529,7 +1570,7 @@ end
 
 theorem singleLine_plain_NM (l : List Entry) (h : ∀ en ∈ l, en.NM) : NoMarkers (singleLine false l) := by
   rw [singleLine_eq_foldl]
-  have : ∀ (m : List Entry) (acc : Toks), NoMarkers acc → (∀ en ∈ m, en.NM) → NoMarkers (m.foldl slStep acc) := by
+  have : ∀ (m : List Entry) (acc : Toks), NoMarkers acc → (∀ en ∈ m, en.NM) → NoMarkers (m.foldl (slStep false) acc) := by
     intro m
     induction m with
     | nil => intro acc ha _; exact ha
@@ -1553,10 +1594,28 @@ theorem singleLine_plain_NM (l : List Entry) (h : ∀ en ∈ l, en.NM) : NoMarke
 /-- C09, the core: for every error over regular text, `%v` / `%s` (the one-line rendering in
     plain mode) is exactly the Error() text -/
 theorem render_v_eq_errText (e : Err) (h : RegE e) : render false false e = errText e := by
-  have hv := v_text e h true false 0 []
+  have hv := v_text e h false true false 0 []
   have hnm := singleLine_plain_NM _ (ents_NM e false true false 0 [])
   unfold render renderT finish
   simp only [Bool.false_eq_true, if_false]
-  rw [unlex_noMarkers _ hnm, stripT_singleLine _ hv.good, hv.txt]
+  rw [unlex_noMarkers _ hnm, stripT_singleLine false _ hv.good hv.asc, hv.txt]
+
+end ErrModel
+
+namespace ErrModel
+
+/-- the one-line rendering in either mode, stripped of its markers, is the Error() text -/
+theorem stripT_renderT_v (e : Err) (h : RegE e) (red : Bool) : stripT (renderT red false e) = errText e := by
+  have hv := v_text e h red true false 0 []
+  unfold renderT finish
+  simp only [Bool.false_eq_true, if_false]
+  rw [stripT_singleLine red _ hv.good hv.asc, hv.txt]
+
+theorem stripT_eraseLabel : (t : Toks) → stripT (eraseLabel t) = stripT t
+  | [] => rfl
+  | .op :: r => by simp [eraseLabel, stripT, stripToks]; exact stripT_eraseLabel r
+  | .cl :: r => by simp [eraseLabel, stripT, stripToks]; exact stripT_eraseLabel r
+  | .b c :: r => by simp [eraseLabel, stripT, stripToks]; exact stripT_eraseLabel r
+  | .u c :: r => by simp [eraseLabel, stripT, stripToks]; exact stripT_eraseLabel r
 
 end ErrModel
